@@ -327,7 +327,7 @@ class ExecBase:
         k = z3.Const(fresh_name('k'), v.ty.args[0].sort())
         return z3.And(
             n >= 0,
-            z3.ForAll([i], z3.Implies(z3.And(0 <= i, i < n), z3.Select(idx, z3.Select(keys, i)) == i), patterns=[z3.Select(keys, i)]),
+            z3.ForAll([i], z3.Implies(z3.And(0 <= i, i < n), z3.Select(idx, z3.Select(keys, i)) == i)),
         )
 
     # ------------------------------------------------------------------ misc
